@@ -347,6 +347,7 @@ struct Gen<'a> {
     next_id: RegId,
     reg_ty: Vec<(RegId, Ty)>,
     init: Vec<(RegId, Val)>,
+    fresh_vals: Vec<(Ty, Val)>,
     cls: Cls,
 }
 
@@ -371,8 +372,17 @@ impl<'a> Gen<'a> {
                 let len = n + *self.rng.pick(&[0, 0, 1, 2, 3, 4, 7, 8, 16]);
                 gen_val(t, self.rng, self.cls, len)
             }
-            t => gen_val(t, self.rng, self.cls, 4),
+            t => {
+                // now and then a value related to the previous fresh value of the same type (equal, opposite, parallel,
+                // anti-parallel): wiring alone almost never produces such operand pairs
+                let prev = self.fresh_vals.iter().rev().find(|(pt, _)| pt == t && is_float_glam(t)).map(|(_, pv)| pv.clone());
+                match prev {
+                    Some(pv) if self.rng.chance(1, 6) => related(&pv, self.rng.below(N_RELATIONS)),
+                    _ => gen_val(t, self.rng, self.cls, 4),
+                }
+            }
         };
+        self.fresh_vals.push((*ty, v.clone()));
         self.init.push((id, v));
         self.reg_ty.push((id, *ty));
         id
@@ -436,7 +446,7 @@ pub fn gen_program(seed: u64, run: u64, takers: &[usize], makers: &[usize]) -> P
         Some(f) => takers.iter().copied().filter(|i| OPS[*i].owner == f).collect(),
         None => Vec::new(),
     };
-    let mut g = Gen { rng: &mut rng, next_id: 0, reg_ty: Vec::new(), init: Vec::new(), cls };
+    let mut g = Gen { rng: &mut rng, next_id: 0, reg_ty: Vec::new(), init: Vec::new(), fresh_vals: Vec::new(), cls };
     let mut steps = Vec::new();
     // (step index at which the register exists from, id, type) for fault placement
     let mut avail: Vec<(usize, RegId, Ty)> = Vec::new();
@@ -520,24 +530,75 @@ pub fn grid_cases(takers: &[usize]) -> Vec<(usize, usize, usize, usize, usize)> 
                 for li in 0..NUM_F_LATTICE {
                     v.push((oi, pos, pc, (pc + li) % ROUTES.len(), 3 + li));
                 }
+                // related operands: every other argument of the poisoned argument's type is equal / opposite / parallel /
+                // anti-parallel to it (non-splat lanes), in both |x| > |y| and |x| < |y| shapes
+                if same_type_args(&OPS[oi]) {
+                    for rel in 0..N_RELATIONS {
+                        v.push((oi, pos, pc, (pc + rel) % ROUTES.len(), 3 + NUM_F_LATTICE + rel));
+                    }
+                }
             }
         }
     }
     v
 }
 
+const N_RELATIONS: usize = 8;
+
+fn same_type_args(op: &OpDesc) -> bool {
+    op.args.iter().enumerate().any(|(i, t)| is_float_glam(t) && op.args.iter().skip(i + 1).any(|u| u == t))
+}
+
+fn is_float_glam(t: &Ty) -> bool {
+    matches!(t, Ty::G(id) if id.elem() == Elem::F32 || id.elem() == Elem::F64)
+}
+
+/// `rel` applied to the visible elements of `v` (hidden lanes are left to the constructor / the fault plan)
+fn related(v: &Val, rel: usize) -> Val {
+    let Some((t, bits)) = v.glam_bits() else { return v.clone() };
+    let k = [1.0, -1.0, 2.0, -0.5, -3.0, 1.0, -1.0, -2.0][rel % 8];
+    let nb: Vec<u64> = bits
+        .iter()
+        .map(|b| if t.elem() == Elem::F32 { ((f32::from_bits(*b as u32) as f64 * k) as f32).to_bits() as u64 } else { (f64::from_bits(*b) * k).to_bits() })
+        .collect();
+    t.from_bits(&nb)
+}
+
+/// non-splat base shapes: rel < 5 uses |x| > |y|, rel >= 5 the other way round
+fn base_shape(t: TyId, rel: usize) -> Val {
+    let n = t.n();
+    let lanes: Vec<f64> = (0..n).map(|i| if rel < 5 { [3.0, 1.0, -2.0, 0.5][i % 4] } else { [0.75, -4.0, 1.5, 2.0][i % 4] } + (i / 4) as f64).collect();
+    let bits: Vec<u64> = lanes.iter().map(|x| if t.elem() == Elem::F32 { (*x as f32).to_bits() as u64 } else { x.to_bits() }).collect();
+    t.from_bits(&bits)
+}
+
 pub fn gen_grid_program(seed: u64, case: (usize, usize, usize, usize, usize), idx: u64) -> Program {
     let (oi, pos, pc, route, oc) = case;
     let mut rng = Rng::new(seed, "c08-grid", idx);
+    let rel = if oc >= 3 + NUM_F_LATTICE { Some(oc - 3 - NUM_F_LATTICE) } else { None };
     let cls = match oc {
         0 => Cls::Ordinary,
         1 => Cls::Mix,
         2 => Cls::RandomBits,
-        k => Cls::Lattice(k - 3),
+        k if k < 3 + NUM_F_LATTICE => Cls::Lattice(k - 3),
+        _ => Cls::Ordinary,
     };
     let op = &OPS[oi];
-    let mut g = Gen { rng: &mut rng, next_id: 0, reg_ty: Vec::new(), init: Vec::new(), cls };
+    let mut g = Gen { rng: &mut rng, next_id: 0, reg_ty: Vec::new(), init: Vec::new(), fresh_vals: Vec::new(), cls };
     let args: Vec<RegId> = op.args.iter().map(|t| g.fresh(t, op)).collect();
+    if let Some(rel) = rel {
+        // the first float glam argument that has a same-typed sibling gets a fixed non-splat shape, the siblings are related to it
+        if let Some(bi) = (0..op.args.len()).find(|i| is_float_glam(&op.args[*i]) && op.args.iter().skip(i + 1).any(|u| *u == op.args[*i])) {
+            if let Ty::G(t) = op.args[bi] {
+                let base = base_shape(t, rel);
+                for (i, ty) in op.args.iter().enumerate() {
+                    if *ty == op.args[bi] {
+                        g.init[i].1 = if i == bi { base.clone() } else { related(&base, rel) };
+                    }
+                }
+            }
+        }
+    }
     let outs: Vec<RegId> = (0..op.outs.len()).map(|i| 1000 + i as RegId).collect();
     let spec = |r: &mut Rng| match pc {
         k if k < POISON_CLASSES.len() => PBits::Const(POISON_CLASSES[k].1),
